@@ -2,7 +2,7 @@
    reference MultiplyByQuantizedMultiplier (model/FpMath.v, the object the C19 development proves fp_math.py
    equal to), for every accumulator, multiplier and shift the hardware fields can hold. *)
 From Coq Require Import ZArith List Bool Lia.
-From VV Require Import lib.PyInt lib.Bits model.FpMath proofs.FpMathProofs hw.Npu hw.NpuExec.
+From VV Require Import lib.PyInt lib.Bits gen.GenTables model.FpMath proofs.FpMathProofs hw.Npu hw.NpuExec.
 Open Scope Z_scope.
 
 Lemma srdhm_closed a b : srdhm a b = srdhm32_c a b.
@@ -198,5 +198,16 @@ Qed.
 
 Lemma activate_reads_lut_read_addr x m r v i :
   lut_index r = Some i ->
+  (prec_elem_ofm (r0 r cmd0_NPU_SET_OFM_PRECISION) =? 4) = false ->
   activate x m r v = rd8 (get_bank m SHRAM) (lut_read_addr (x_lut_addr x) i (ofm_signed r) v).
-Proof. intros H. unfold activate, lut_read_addr. rewrite H. reflexivity. Qed.
+Proof. intros H H8. unfold activate, lut_read_addr. rewrite H, H8. reflexivity. Qed.
+
+(* the 32-bit table (softmax): the four bytes read lie inside the 1024-byte read footprint of a 32-bit OFM *)
+Lemma lut32_read_inside_footprint (base i v : Z) :
+  0 <= i <= 4 -> -128 <= v <= 127 ->
+  base + i * 256 <= base + i * 256 + 4 * (v + 128) /\
+  base + i * 256 + 4 * (v + 128) + 4 <= base + i * 256 + lut_read_bytes 4 i.
+Proof.
+  intros Hi Hv. unfold lut_read_bytes. cbn [Z.eqb Pos.eqb].
+  rewrite Z.min_r by lia. lia.
+Qed.
